@@ -18,6 +18,8 @@ def run(ctx):
         "are cleared or kept by flag; `/` and joinpath reach the same helper with the same default; (SH1) the part "
         "indexing cannot fail. Not decided: the equalities between the alternative spellings.")
     K = make_kinds(ctx.model)
+    from .common import claim_in, path_function
+    claim_in(ctx, ("K1", "K2", "K3", "K-REQ", "K-MIX", "K-RT"), path_function, "the path operations and their helpers")
     k1(ctx, K)
     k2_k3(ctx, K)
     k_req(ctx, K)
